@@ -266,6 +266,14 @@ class DataPacketReceiver(Elaboratable):
                     with m.If(data_bytes_remaining > 4):
                         m.d.ss += data_bytes_remaining.eq(data_bytes_remaining - 4)
 
+                    # A zero-length payload consists only of its CRC; which is the word we're seeing.
+                    with m.Elif(data_bytes_remaining == 0):
+                        with m.If(sink.data == crc32.crc):
+                            m.d.comb += self.packet_good.eq(1)
+                        with m.Else():
+                            m.d.comb += self.packet_bad.eq(1)
+                        m.next = "WAIT_FOR_HPSTART"
+
                     with m.Else():
                         m.next = "CHECK_CRC32"
 
